@@ -545,6 +545,7 @@ static int run_one(const Args &args)
         std::vector<int> o;
         for (u64 x : culist(m, "order")) o.push_back((int)x);
         bool rev = cs(m, "order") == "reversed";
+        if (cs(m, "order") == "identity" || rev) o.clear();
         ts::set_order_fn([&](int, int TT) {
             std::vector<int> r(TT);
             if ((int)o.size() == TT) return o;
@@ -611,6 +612,46 @@ int main(int argc, char **argv)
         rep().stat("distinct_outcomes", (long long)t.outcomes.size());
         if (part == "coop") printf("INFO coop scenario %s schedules=%lld distinct_terminal_outputs=%zu\n", scnstr(S[i], 0).c_str(), t.schedules, t.outcomes.size());
     });
+    if (part == "serial" && only < 0)
+    {
+        // parcpy / parSetZero: EVERY size in [0, 18432] (and around every integer constant of the library source and its
+        // double) x team arguments {3,5,6,7,11,13,64}: chunk arithmetic must transfer exactly `size` elements whatever the split
+        std::set<u64> sizes;
+        for (u64 z = 0; z <= 18432; z++) sizes.insert(z);
+        for (u64 L : culist(args.kv, "lits"))
+            for (u64 m : {1ULL, 2ULL})
+                for (long long d = -70; d <= 70; d++) { long long v = (long long)(L * m) + d; if (v >= 0 && v <= 2200000) sizes.insert((u64)v); }
+        std::vector<u64> sv(sizes.begin(), sizes.end());
+        const long NCH = 64;
+        fork_pool(NCH, args.jobs, [&](long ch) {
+            long long st = 0, tr = 0;
+            ts::set_mode(ts::SERIAL);
+            for (size_t i = (size_t)ch; i < sv.size(); i += NCH)
+                for (int kind : {K_PARCPY, K_PARZERO})
+                {
+                    Scn s{kind, 0, 0, 0, 0, 0, 0, 0, 0, 0, 0, 0, sv[i]};
+                    ts::set_order_fn(nullptr);
+                    Exec ref = execute(s, 1);
+                    for (int T : {3, 5, 6, 7, 11, 13, 64})
+                    {
+                        bool rev = ((i + (size_t)T) & 1) != 0;
+                        ts::set_order_fn([rev](int, int TT) { std::vector<int> r(TT); for (int k = 0; k < TT; k++) r[k] = rev ? TT - 1 - k : k; return r; });
+                        Exec x = execute(s, T);
+                        st++;
+                        tr += (long long)x.regions.size();
+                        std::string sched = rev ? "order=reversed" : "order=identity";
+                        for (auto &c : x.conflicts) { report_conflict(s, T, sched, c); break; }
+                        if (x.out != ref.out) rep().viol(fmt("C12.order-dependent.%s", kname[kind]), scnstr(s, T) + " " + sched, "output differs from the single-member execution");
+                    }
+                }
+            rep().stat("states", st);
+            rep().stat("transitions", tr);
+            rep().stat("evaluations", tr);
+            rep().stat("distinct_nontrivial", st);
+            rep().stat("parcpy_sweep_executions", st);
+        });
+        rep().sample("parcpy-sweep", fmt("\"what\":\"parcpy and parSetZero for every size in [0,18432] and around mined constants (%zu sizes) x team arguments 3,5,6,7,11,13,64, member order alternating identity/reversed\"", sv.size()), 1);
+    }
     rep().sample("scenario", "\"case\":\"" + scnstr(S[S.size() / 3], 3) + "\",\"part\":\"" + part + "\"", 1);
     rep().stat("scenarios", (long long)S.size());
     rep().flush();
